@@ -674,6 +674,207 @@ func runC17(r *ev.Run) {
 		r.Count("close-vs-compaction:"+point, 1)
 		r.Eval(true, ev.Digest("cvc", point, ci))
 	})
+	// ------------------------------------------------------------------ Close while a foreground Flush is in flight
+	// An explicit Flush is held at a point inside its segment write; Close runs beside it and, once it has returned nil, the
+	// next owner opens the directory. From that moment nothing the OLD handle started may change the directory any more
+	// (same oracle as close-vs-compaction: "a successful Close releases ownership").
+	cfPoints := []string{"flush.begin", "crash:flush.create.hybrid", "crash:flush.create.vector", "crash:flush.create.text", "crash:flush.written", "crash:flush.close.hybrid", "crash:flush.added", "flush.registered"}
+	r.Cases("close-vs-flush", r.Pick(16, 160), func(ci int, rng *rand.Rand) {
+		dir, err := os.MkdirTemp("", "verif-c17g-*")
+		if err != nil {
+			panic(err)
+		}
+		defer os.RemoveAll(dir)
+		point := cfPoints[ci%len(cfPoints)]
+		rep := func(sig, what string) { r.ViolationAt("close-vs-flush", ci, sig, "point="+point+": "+what, nil) }
+		s, err := p.open(dir)
+		if err != nil {
+			rep("own.open-fails-on-free-directory", err.Error())
+			return
+		}
+		ids := newIDGen(rng)
+		ids.min = 1 << 24
+		for seg := 0; seg < rng.IntN(3); seg++ {
+			d := genStoreDoc(rng, p, ids.next(), "c")
+			s.AddWithID(d.ID, d.Vec, d.Text, d.Meta)
+			s.Flush()
+		}
+		for i := 0; i < 1+rng.IntN(3); i++ {
+			d := genStoreDoc(rng, p, ids.next(), "c")
+			if err := s.AddWithID(d.ID, d.Vec, d.Text, d.Meta); err != nil {
+				rep("own.add-error", err.Error())
+			}
+		}
+		var mu sync.Mutex
+		var closeErr error
+		var stateAtHandover string
+		var next *comet.PersistentHybridIndex
+		var besideDone chan struct{}
+		inTime := false
+		ctl.resetTrace(false)
+		ctl.setTarget(point, 1, func(args []any) {
+			it, bd := runBeside(func() {
+				err := s.Close()
+				var n2 *comet.PersistentHybridIndex
+				if err == nil {
+					n2, _ = p.open(dir)
+				}
+				st := dirState(dir)
+				mu.Lock()
+				closeErr, next, stateAtHandover = err, n2, st
+				mu.Unlock()
+			}, 200*time.Millisecond)
+			mu.Lock()
+			inTime, besideDone = it, bd
+			mu.Unlock()
+		})
+		flushErr := s.Flush() // returns after the pause (and after whatever Close did beside it)
+		fired := ctl.fired()
+		ctl.clearTarget()
+		if !fired {
+			s.Close()
+			r.Inconclusive("flush point not reached: " + point)
+			r.Count("close-vs-flush:point-not-reached:"+point, 1)
+			return
+		}
+		mu.Lock()
+		bd := besideDone
+		mu.Unlock()
+		select {
+		case <-bd:
+		case <-time.After(60 * time.Second):
+			rep("own.close-hangs", "Close beside an in-flight Flush did not return within 60 s after the Flush had returned")
+			return
+		}
+		mu.Lock()
+		cerr, n2, st, it := closeErr, next, stateAtHandover, inTime
+		mu.Unlock()
+		if cerr != nil {
+			// a Close that reports an error promises nothing about ownership; make sure the directory is not left locked for good
+			s.Close()
+			r.Count("close-vs-flush:close-error", 1)
+			r.Eval(false, ev.Digest("cvf-err", point, ci))
+			return
+		}
+		if n2 == nil {
+			rep("own.open-fails-on-free-directory", "Open right after a successful Close (a Flush of the old handle in flight) failed")
+			return
+		}
+		if now := dirState(dir); now != st {
+			rep("own.closed-handle-modifies-directory", fmt.Sprintf("the directory changed after Close had returned nil and the next owner had opened it (an explicit Flush of the closed handle was still writing; Close returned while it was paused: %v; that Flush answered %v)\n at hand-over: %s\n now:          %s", it, flushErr, st, now))
+		}
+		n2.Close()
+		if it {
+			r.Count("close-vs-flush:close-returned-while-flush-paused", 1)
+		} else {
+			r.Count("close-vs-flush:close-waited-for-flush", 1)
+		}
+		r.Count("close-vs-flush:"+point, 1)
+		r.Eval(true, ev.Digest("cvf", point, ci))
+	})
+	// ------------------------------------------------------------------ an Open that overlaps the release of the lock
+	// Close is held between closing its lock file and removing it (lock.releasing); an Open runs beside it. Whatever that
+	// Open answers, there is one owner at most afterwards: if it succeeded it owns the directory (LOCK present, every
+	// further Open refused until it closes); if it was refused the directory is free once Close has returned.
+	r.Cases("open-vs-release", r.Pick(12, 120), func(ci int, rng *rand.Rand) {
+		dir, err := os.MkdirTemp("", "verif-c17h-*")
+		if err != nil {
+			panic(err)
+		}
+		defer os.RemoveAll(dir)
+		rep := func(sig, what string) { r.ViolationAt("open-vs-release", ci, sig, what, nil) }
+		s, err := p.open(dir)
+		if err != nil {
+			rep("own.open-fails-on-free-directory", err.Error())
+			return
+		}
+		ids := newIDGen(rng)
+		ids.min = 1 << 24
+		for i := 0; i < rng.IntN(3); i++ {
+			d := genStoreDoc(rng, p, ids.next(), "c")
+			s.AddWithID(d.ID, d.Vec, d.Text, d.Meta)
+		}
+		var mu sync.Mutex
+		var a *comet.PersistentHybridIndex
+		var aErr error
+		var besideDone chan struct{}
+		nOpens := 1 + ci%3 // 1..3 opens in a row beside the paused Close: at most one of them may win
+		var winners int
+		ctl.resetTrace(false)
+		ctl.setTarget("lock.releasing", 1, func(args []any) {
+			_, bd := runBeside(func() {
+				for k := 0; k < nOpens; k++ {
+					h, err := p.open(dir)
+					mu.Lock()
+					if err == nil {
+						winners++
+						if a == nil {
+							a = h
+						} else {
+							defer h.Close()
+						}
+					} else {
+						aErr = err
+					}
+					mu.Unlock()
+				}
+			}, 300*time.Millisecond)
+			mu.Lock()
+			besideDone = bd
+			mu.Unlock()
+		})
+		cerr := s.Close()
+		fired := ctl.fired()
+		ctl.clearTarget()
+		if !fired {
+			r.Inconclusive("lock.releasing not reached")
+			return
+		}
+		mu.Lock()
+		bd := besideDone
+		mu.Unlock()
+		select {
+		case <-bd:
+		case <-time.After(60 * time.Second):
+			rep("own.open-hangs", "an Open beside a Close that was releasing the lock did not return within 60 s after the Close had returned")
+			return
+		}
+		if cerr != nil {
+			rep("own.close-error", fmt.Sprintf("Close failed (an Open ran while it was releasing the lock): %v", cerr))
+		}
+		mu.Lock()
+		owner, w, lastErr := a, winners, aErr
+		mu.Unlock()
+		_ = lastErr
+		if w > 1 {
+			rep("own.second-open-succeeds", fmt.Sprintf("%d of %d Opens issued while the previous owner was releasing its lock succeeded", w, nOpens))
+		}
+		if owner != nil {
+			r.Count("open-vs-release:overlapping-open-won", 1)
+			if _, err := os.Stat(filepath.Join(dir, "LOCK")); err != nil {
+				rep("own.lock-missing-while-owned", fmt.Sprintf("an Open that overlapped the previous owner's Close succeeded, but after that Close returned the directory holds no LOCK: %v", err))
+			}
+			if h2, err := p.open(dir); err == nil {
+				rep("own.second-open-succeeds", "an Open that overlapped the previous owner's Close succeeded and is still open; the next Open succeeded as well (two owners)")
+				h2.Close()
+			}
+			if err := owner.Close(); err != nil {
+				rep("own.close-error", fmt.Sprintf("Close of the owner that had opened while the previous owner was releasing failed: %v", err))
+			}
+		} else {
+			r.Count("open-vs-release:overlapping-open-refused", 1)
+		}
+		h3, err := p.open(dir)
+		if err != nil {
+			rep("own.open-fails-after-close", fmt.Sprintf("every handle is closed, Open fails: %v", err))
+			return
+		}
+		h3.Close()
+		if _, err := os.Stat(filepath.Join(dir, "LOCK")); err == nil {
+			rep("own.lock-left-after-close", "LOCK still present after the last Close")
+		}
+		r.Eval(true, ev.Digest("ovr", nOpens, ci))
+	})
 	// ------------------------------------------------------------------ ownership lasts until Close has finished writing
 	// Close persists the writable memtable before it returns. While that final segment is being written (observed at
 	// the crash:flush.* points inside it) the directory is still owned: the LOCK must be there and a second Open refused.
